@@ -179,7 +179,7 @@ func runPattern(p []Step) (nontrivial bool, err error, inconclusive string) {
 	var mu sync.Mutex
 	var seen []obs
 	idx := 0
-	fp.ListHook = func(w http.ResponseWriter, r *http.Request) bool {
+	fp.SetListHook(func(w http.ResponseWriter, r *http.Request) bool {
 		mu.Lock()
 		i := idx
 		idx++
@@ -234,7 +234,7 @@ func runPattern(p []Step) (nontrivial bool, err error, inconclusive string) {
 			mu.Unlock()
 		}
 		return true
-	}
+	})
 	meta := vh.NewFakeMeta()
 	defer meta.Close()
 	backend := vh.NewRawBackend(nil)
